@@ -329,3 +329,295 @@ Proof.
   rewrite missing_truthy. reflexivity.
 Qed.
 End Chain.
+
+(* ==================== JSON ==================== *)
+Section Json.
+Variable parse : str -> pv -> result pv.
+Variable ser_ext : atom -> result jval.
+
+Lemma field_of_name_name : forall f, field_of_name (field_name f) = Some f.
+Proof. destruct f; vm_compute; reflexivity. Qed.
+
+Lemma kwargs_of_json_fields : forall (J : field -> jval) fs,
+  flat_map (fun '(k, v) => match field_of_name k with Some f => [(f, pv_of_json v)] | None => [] end)
+           (map (fun f => (field_name f, J f)) fs) = map (fun f => (f, pv_of_json (J f))) fs.
+Proof.
+  intros J fs. induction fs as [|f fs IH]; cbn [map flat_map]; [reflexivity|].
+  rewrite field_of_name_name. cbn [app]. rewrite IH. reflexivity.
+Qed.
+
+(* the value survives JSON: it is written, and what is read back is the value itself *)
+Definition json_stable (v : pv) : Prop := exists j, json_of_pv ser_ext v = Ok j /\ pv_of_json j = v.
+
+Lemma field_choice : forall (P : field -> jval -> Prop),
+  (forall f, exists j, P f j) -> exists J, forall f, P f (J f).
+Proof.
+  intros P H.
+  destruct (H FName) as [j1 H1]. destruct (H FDefault) as [j2 H2]. destruct (H FType) as [j3 H3].
+  destruct (H FElementType) as [j4 H4]. destruct (H FDescription) as [j5 H5]. destruct (H FDisposition) as [j6 H6].
+  destruct (H FAliases) as [j7 H7]. destruct (H FNullable) as [j8 H8]. destruct (H FExpectations) as [j9 H9].
+  destruct (H FIdentity) as [j10 H10]. destruct (H FLength) as [j11 H11]. destruct (H FPrecision) as [j12 H12].
+  destruct (H FScale) as [j13 H13]. destruct (H FOrigin) as [j14 H14]. destruct (H FHighest) as [j15 H15].
+  destruct (H FLowest) as [j16 H16]. destruct (H FNullCount) as [j17 H17].
+  exists (fun f => match f with
+                   | FName => j1 | FDefault => j2 | FType => j3 | FElementType => j4 | FDescription => j5
+                   | FDisposition => j6 | FAliases => j7 | FNullable => j8 | FExpectations => j9 | FIdentity => j10
+                   | FLength => j11 | FPrecision => j12 | FScale => j13 | FOrigin => j14 | FHighest => j15
+                   | FLowest => j16 | FNullCount => j17 end).
+  intros f. destruct f; assumption.
+Qed.
+
+Lemma to_json_ok : forall c (J : field -> jval),
+  (forall f, json_of_pv ser_ext (get f c) = Ok (J f)) ->
+  to_json ser_ext c = Ok (JObj (map (fun f => (field_name f, J f)) all_fields)).
+Proof.
+  intros c J H. unfold to_json.
+  rewrite (mapM_ok _ _ _ (fun f => (field_name f, J f))); [reflexivity|].
+  intros f _. rewrite H. reflexivity.
+Qed.
+
+Lemma from_json_to_json : forall fresh c,
+  wf_col c ->
+  (forall f, free f = true -> f <> FDefault -> f <> FExpectations -> json_stable (get f c)) ->
+  (exists j, json_of_pv ser_ext (c_default c) = Ok j /\ default_ok parse c (pv_of_json j)) ->
+  (exists j, json_of_pv ser_ext (c_expectations c) = Ok j /\ exp_in (pv_of_json j) = Ok (c_expectations c)) ->
+  exists j, to_json ser_ext c = Ok j /\ from_json parse fresh j = Ok (restored c).
+Proof.
+  intros fresh c Hwf Hfree [jd [Hjd HD]] [jx [Hjx HX]].
+  assert (HP : forall f, exists j, json_of_pv ser_ext (get f c) = Ok j /\
+                                   pv_of_json j = kw_view c (pv_of_json jd) (pv_of_json jx) f).
+  { destruct Hwf as [[m [Ht Hm]] He _ Hd _].
+    intros f. destruct f.
+    all: try (match goal with
+              | |- exists j, json_of_pv _ (get ?F _) = Ok j /\ _ =>
+                  destruct (Hfree F eq_refl ltac:(discriminate) ltac:(discriminate)) as [j [Hj1 Hj2]];
+                  exists j; split; [exact Hj1 | exact Hj2]
+              end).
+    - exists jd. split; [exact Hjd | reflexivity].
+    - cbn [get kw_view]. rewrite Ht. eexists. split; reflexivity.
+    - cbn [get kw_view]. destruct He as [-> | [e [-> _]]]; eexists; split; reflexivity.
+    - cbn [get kw_view]. destruct Hd as [-> | [d [-> _]]]; eexists; split; reflexivity.
+    - exists jx. split; [exact Hjx | reflexivity]. }
+  destruct (field_choice _ HP) as [J HJ].
+  exists (JObj (map (fun f => (field_name f, J f)) all_fields)). split.
+  - apply to_json_ok. intros f. exact (proj1 (HJ f)).
+  - unfold from_json, kwargs_of_json. rewrite kwargs_of_json_fields.
+    apply (init_text parse class_flat fresh _ c (pv_of_json jd) (pv_of_json jx) Hwf HD HX).
+    intros f. rewrite (lookup_map (fun f' => pv_of_json (J f')) f). rewrite (proj2 (HJ f)). reflexivity.
+Qed.
+
+(* values with a native JSON form are stable *)
+Definition native_atom (a : atom) : Prop :=
+  match a with
+  | ANone | ABool _ | AText _ => True
+  | AInt z => int64_ok z = true
+  | AFloat b => finite_bits b = true
+  | AExp false _ _ => True
+  | _ => False
+  end.
+
+Lemma native_atom_stable : forall a, native_atom a ->
+  exists j, json_of_atom ser_ext a = Ok j /\ atom_of_json j = a /\ (forall l, j <> JArr l).
+Proof.
+  intros a H. destruct a; cbn [native_atom] in H; try contradiction.
+  - exists JNull. repeat split; discriminate.
+  - exists (JBool b). repeat split; discriminate.
+  - exists (JInt z). cbn [json_of_atom]. rewrite H. repeat split; discriminate.
+  - exists (JFloat bits). cbn [json_of_atom]. rewrite H. repeat split; discriminate.
+  - exists (JText s). repeat split; discriminate.
+  - destruct isobj; [contradiction|]. exists (JExpn hascol id). repeat split; discriminate.
+Qed.
+
+Lemma native_stable : forall a, native_atom a -> json_stable (PA a).
+Proof.
+  intros a H. destruct (native_atom_stable a H) as [j [H1 [H2 H3]]].
+  exists j. split; [exact H1|]. destruct j; try (cbn [pv_of_json]; rewrite <- H2; reflexivity).
+  exfalso. exact (H3 l eq_refl).
+Qed.
+
+Lemma native_list_stable : forall l, Forall native_atom l -> json_stable (PL l).
+Proof.
+  intros l H.
+  assert (HL : exists js, mapM (json_of_atom ser_ext) l = Ok js /\ map atom_of_json js = l).
+  { induction H as [|a l Ha Hl IH].
+    - exists []. split; reflexivity.
+    - destruct IH as [js [H1 H2]]. destruct (native_atom_stable a Ha) as [j [J1 [J2 _]]].
+      exists (j :: js). cbn [mapM map]. rewrite J1. cbn [bind]. rewrite H1. cbn [bind].
+      rewrite J2, H2. split; reflexivity. }
+  destruct HL as [js [H1 H2]]. exists (JArr js). cbn [json_of_pv]. rewrite H1. cbn [bind pv_of_json].
+  rewrite H2. split; reflexivity.
+Qed.
+
+(* ==================== to_flatcolumn ==================== *)
+Definition normalised (c : column) : Prop :=
+  ((exists m, c_type c = PA (ATy m)) \/ c_type c = PA (AInt 0)) /\
+  (c_elt c = PNone \/ exists e, c_elt c = PA (ATy e)) /\
+  (c_type c = PA (ATy ty_decimal) -> is_none (c_precision c) = false /\ is_none (c_scale c) = false) /\
+  (truthy (c_default c) = true -> exists m, c_type c = PA (ATy m) /\ parse m (c_default c) = Ok (c_default c)).
+
+Lemma chain_normalised : forall c,
+  normalised c -> c_disposition c = PNone -> chain parse c = Ok c.
+Proof.
+  intros c [Ht [He [Hdec Hdf]]] Hdp.
+  destruct c as [n d t e ds dp al nu ex id ln pr sc og hi lo nc].
+  cbn [c_type c_elt c_disposition c_default c_precision c_scale] in *. subst dp.
+  unfold chain.
+  assert (S1 : norm_disposition (mkcolumn n d t e ds PNone al nu ex id ln pr sc og hi lo nc)
+               = Ok (mkcolumn n d t e ds PNone al nu ex id ln pr sc og hi lo nc)) by reflexivity.
+  rewrite S1. cbn [bind]. clear S1.
+  assert (S2 : norm_element (mkcolumn n d t e ds PNone al nu ex id ln pr sc og hi lo nc)
+               = Ok (mkcolumn n d t e ds PNone al nu ex id ln pr sc og hi lo nc)).
+  { destruct He as [-> | [y ->]]; reflexivity. }
+  rewrite S2. cbn [bind]. clear S2.
+  assert (S3 : norm_type (mkcolumn n d t e ds PNone al nu ex id ln pr sc og hi lo nc)
+               = Ok (mkcolumn n d t e ds PNone al nu ex id ln pr sc og hi lo nc)).
+  { destruct Ht as [[m ->] | ->]; [reflexivity|].
+    unfold norm_type. cbn [c_type]. rewrite (proj2 missing_name_resolves). reflexivity. }
+  rewrite S3. cbn [bind]. clear S3.
+  assert (S4 : norm_default parse (mkcolumn n d t e ds PNone al nu ex id ln pr sc og hi lo nc)
+               = Ok (mkcolumn n d t e ds PNone al nu ex id ln pr sc og hi lo nc)).
+  { unfold norm_default. cbn [c_default c_type]. destruct (truthy d) eqn:ET; [|reflexivity].
+    destruct (Hdf eq_refl) as [m [-> Hp]]. rewrite Hp. reflexivity. }
+  rewrite S4. cbn [bind]. clear S4.
+  unfold norm_decimal. cbn [c_type]. destruct t as [[]|]; try reflexivity.
+  destruct (str_eqb m ty_decimal) eqn:Edc; [|reflexivity].
+  apply str_eqb_eq in Edc. subst m. destruct (Hdec eq_refl) as [Hp Hs].
+  rewrite fill_present by exact Hp. cbn [c_scale]. rewrite Hs. reflexivity.
+Qed.
+
+Definition flattened (c : column) : column :=
+  mkcolumn (c_name c) (c_default c) (c_type c) (c_elt c) (c_description c) PNone (c_aliases c) (c_nullable c)
+           (PL []) (c_identity c) PNone (c_precision c) (c_scale c) (PL []) (c_highest c) (c_lowest c) (c_null_count c).
+
+Lemma flat_defaults : forall fresh,
+  default_value class_flat fresh FDisposition = Some PNone /\
+  default_value class_flat fresh FExpectations = Some (PL []) /\
+  default_value class_flat fresh FLength = Some PNone /\
+  default_value class_flat fresh FOrigin = Some (PL []).
+Proof. intros fresh. repeat split; vm_compute; reflexivity. Qed.
+
+Lemma to_flatcolumn_ok : forall fresh c s,
+  c_name c = PA (AText s) -> normalised c -> to_flatcolumn parse fresh c = Ok (flattened c).
+Proof.
+  intros fresh c s Hn Hnorm. unfold to_flatcolumn. rewrite Hn. cbn [text_of].
+  destruct (flat_defaults fresh) as [D1 [D2 [D3 D4]]].
+  unfold init.
+  assert (HC : collect class_flat fresh ((FName, PA (AText s)) :: map (fun f => (f, get f c)) (tl flat_kept)) =
+               Ok (map (fun f => (f, get f (flattened c))) all_fields)).
+  { unfold collect. apply mapM_ok. intros f _. unfold field_value.
+    destruct f; cbn [lookup map tl flat_kept field_eqb bind get flattened c_name c_default c_type c_elt c_description
+                     c_disposition c_aliases c_nullable c_expectations c_identity c_length c_precision c_scale c_origin
+                     c_highest c_lowest c_null_count];
+      try reflexivity.
+    all: first [ rewrite Hn; reflexivity | rewrite D1; reflexivity | rewrite D2; reflexivity
+               | rewrite D3; reflexivity | rewrite D4; reflexivity ]. }
+  rewrite HC. cbn [bind]. rewrite of_assoc_map. rewrite build_get.
+  apply chain_normalised; [|reflexivity].
+  destruct Hnorm as [Ht [He [Hdec Hdf]]]. unfold normalised, flattened.
+  cbn [c_type c_elt c_precision c_scale c_default]. exact (conj Ht (conj He (conj Hdec Hdf))).
+Qed.
+
+Lemma flattened_keeps : forall c f, In f flat_kept -> get f (flattened c) = get f c.
+Proof.
+  intros c f H. unfold flat_kept in H. cbn [In] in H.
+  repeat (destruct H as [<- | H]; [reflexivity|]). contradiction.
+Qed.
+End Json.
+
+(* ==================== the statements used by Props/C16.v ==================== *)
+Section Statements.
+Variable parse : str -> pv -> result pv.
+
+(* a column the dictionary form can carry: member type (possibly the placeholder), member element type and
+   disposition, DECIMAL with its parameters, no enum member / Expectation object hidden in the other attributes,
+   expectations (if any) in dictionary form with a column, and a default that its type's parse leaves alone *)
+Definition persistable (c : column) : Prop :=
+  wf_col c /\ plain_free c /\ default_ok parse c (c_default c) /\
+  exp_in (c_expectations c) = Ok (c_expectations c).
+
+(* equal in every attribute, except that the type attribute is only required for typed columns *)
+Definition same_but_untyped_type (c' c : column) : Prop :=
+  (forall f, f <> FType -> get f c' = get f c) /\ (untyped c = false -> c' = c).
+
+Lemma restored_same : forall c, same_but_untyped_type (restored c) c.
+Proof. intros c. split; [intros f Hf; apply restored_other; exact Hf | apply restored_typed]. Qed.
+
+Lemma column_dict_round_trip : forall cls fresh c,
+  persistable c ->
+  exists c', init parse cls fresh (to_dict_col c) = Ok c' /\ same_but_untyped_type c' c.
+Proof.
+  intros cls fresh c [H1 [H2 [H3 H4]]]. exists (restored c). split.
+  - apply init_to_dict; assumption.
+  - apply restored_same.
+Qed.
+
+Lemma Forall2_restored : forall cs, Forall2 same_but_untyped_type (map restored cs) cs.
+Proof. induction cs as [|c cs IH]; cbn [map]; constructor; [apply restored_same | exact IH]. Qed.
+
+Lemma schema_dict_round_trip : forall fresh s,
+  Forall persistable (s_columns s) ->
+  conv (s_name s) = s_name s -> conv (s_aliases s) = s_aliases s -> conv (s_pk s) = s_pk s ->
+  exists s', from_dict parse fresh (to_dict s) = Ok s' /\
+             s_name s' = s_name s /\ s_aliases s' = s_aliases s /\ s_pk s' = s_pk s /\
+             Forall2 same_but_untyped_type (s_columns s') (s_columns s) /\
+             s_columns s' = map restored (s_columns s).
+Proof.
+  intros fresh s H Hn Ha Hp. eexists. split; [apply from_dict_to_dict; exact H|].
+  cbn [s_name s_aliases s_pk s_columns]. repeat split; try assumption. apply Forall2_restored.
+Qed.
+
+Lemma schema_round_trip_exact : forall fresh s,
+  Forall persistable (s_columns s) -> Forall (fun c => untyped c = false) (s_columns s) ->
+  conv (s_name s) = s_name s -> conv (s_aliases s) = s_aliases s -> conv (s_pk s) = s_pk s ->
+  s_rcm s = PNone -> s_rce s = PNone -> s_dsm s = PNone -> s_dse s = PNone ->
+  from_dict parse fresh (to_dict s) = Ok s.
+Proof.
+  intros fresh s H Ht Hn Ha Hp H1 H2 H3 H4. rewrite (from_dict_to_dict parse fresh s H).
+  rewrite Hn, Ha, Hp, (map_restored_typed _ Ht). destruct s. cbn in *. subst. reflexivity.
+Qed.
+
+Lemma restored_validates_alike : forall fresh s s' key r,
+  Forall persistable (s_columns s) ->
+  from_dict parse fresh (to_dict s) = Ok s' ->
+  Model.C05.validate (proj_schema key s') r = Model.C05.validate (proj_schema key s) r.
+Proof.
+  intros fresh s s' key r H E. rewrite (from_dict_to_dict parse fresh s H) in E. inversion E; subst s'.
+  unfold proj_schema. cbn [s_columns]. rewrite proj_schema_restored. reflexivity.
+Qed.
+
+Lemma restored_describes_alike : forall fresh s s',
+  Forall persistable (s_columns s) ->
+  from_dict parse fresh (to_dict s) = Ok s' ->
+  map describe (s_columns s') = map describe (s_columns s).
+Proof.
+  intros fresh s s' H E. rewrite (from_dict_to_dict parse fresh s H) in E. inversion E; subst s'.
+  cbn [s_columns]. rewrite map_map. apply map_ext. intros c. apply describe_restored.
+Qed.
+
+Lemma flatten_keeps : forall fresh c s,
+  c_name c = PA (AText s) -> normalised parse c ->
+  exists c', to_flatcolumn parse fresh c = Ok c' /\ forall f, In f flat_kept -> get f c' = get f c.
+Proof.
+  intros fresh c s Hn Hc. exists (flattened c). split.
+  - apply (to_flatcolumn_ok parse fresh c s Hn Hc).
+  - intros f Hf. apply flattened_keeps. exact Hf.
+Qed.
+
+Variable ser_ext : atom -> result jval.
+
+(* a column the JSON form can carry *)
+Definition json_persistable (c : column) : Prop :=
+  wf_col c /\
+  (forall f, free f = true -> f <> FDefault -> f <> FExpectations -> json_stable ser_ext (get f c)) /\
+  (exists j, json_of_pv ser_ext (c_default c) = Ok j /\ default_ok parse c (pv_of_json j)) /\
+  (exists j, json_of_pv ser_ext (c_expectations c) = Ok j /\ exp_in (pv_of_json j) = Ok (c_expectations c)).
+
+Lemma column_json_round_trip : forall fresh c,
+  json_persistable c ->
+  exists j c', to_json ser_ext c = Ok j /\ from_json parse fresh j = Ok c' /\ same_but_untyped_type c' c.
+Proof.
+  intros fresh c [H1 [H2 [H3 H4]]].
+  destruct (from_json_to_json parse ser_ext fresh c H1 H2 H3 H4) as [j [J1 J2]].
+  exists j, (restored c). repeat split; try assumption; [intros f Hf; apply restored_other; exact Hf | apply restored_typed].
+Qed.
+End Statements.
